@@ -28,10 +28,10 @@ def b2l(b: bytes) -> list[int]:
     return list(b)
 
 
-def call(searcher, data: bytes, kws_override=None) -> dict:
-    label, kws = searcher.args[0], list(searcher.args[1])
-    rec = {"label": b2l(label.encode()), "kws": [b2l(k) for k in (kws_override if kws_override is not None else kws)],
-           "data": b2l(data), "hits": [], "failed": []}
+def call(searcher, data: bytes, kws: list[bytes], label: str) -> dict:
+    """One call of a keyword searcher.  Label and keywords come from the file the searcher was built from (read by the
+    harness), never from the searcher object: what it holds internally is the implementation's business."""
+    rec = {"label": b2l(label.encode()), "kws": [b2l(k) for k in kws], "data": b2l(data), "hits": [], "failed": []}
     try:
         for h in searcher(data):
             rec["hits"].append({"ty": b2l(h.type.encode()), "val": b2l(h.value), "obf": b2l(h.obfuscation.encode()),
@@ -74,10 +74,11 @@ def run(prop: str, tier: str) -> int:
         with open(os.path.join(kdir, "uni.words"), "wb") as g:
             g.write(b"\n".join(bytes(k) for k in uni["kws"]) + b"\n")
         searchers = get_keywords(kdir)
-        if len(searchers) != 1 or len(searchers[0].args[1]) != len(uni["kws"]):
-            raise MachineryError("generated keyword directory was not loaded as one searcher with every keyword")
+        if len(searchers) != 1:
+            raise MachineryError("generated keyword directory was not loaded as one searcher")
+        ukws = [bytes(k) for k in uni["kws"]]
         for d in uni["data"]:
-            rec = call(searchers[0], bytes(d))
+            rec = call(searchers[0], bytes(d), ukws, "uni.words")
             rec["origin"] = "universe"
             f.write(json.dumps(rec) + "\n")
             n += 1
@@ -102,7 +103,7 @@ def run(prop: str, tier: str) -> int:
             base = bytes(rng.choice(alpha) for _ in range(rng.randint(0, 12)))
             k = rng.choice(kws)
             data = base + rng.choice([k, k.upper(), k.lower(), k.swapcase()]) + rng.choice([b"", b" ", b"x", k])
-            rec = call(s[0], data, kws_override=kws)       # the keywords as listed in the file, not as the searcher holds them
+            rec = call(s[0], data, kws, "rnd.list")
             rec["origin"] = "random"
             f.write(json.dumps(rec) + "\n")
             n += 1
@@ -110,7 +111,14 @@ def run(prop: str, tier: str) -> int:
             nontrivial += 1 if rec["hits"] else 0
         # direction B: the shipped keyword lists on texts met while scanning
         md = Multidecoder()
-        shipped = [s for s in md.decoders if hasattr(s, "args")]
+        import multidecoder
+
+        listed: dict[str, list[bytes]] = {}        # shipped keyword lists as they are on disk
+        for sub, _dirs, files in os.walk(os.path.join(os.path.dirname(multidecoder.__file__), "keywords")):
+            for fn in files:
+                with open(os.path.join(sub, fn), "rb") as g:
+                    listed[fn] = [k for k in g.read().splitlines() if k]
+        shipped = [s for s in md.decoders if hasattr(s, "args") and s.args and s.args[0] in listed]
         inputs = list(drivers.repo_literals()) + list(drivers.token_soup(rng, 200 if tier == "quick" else 3000))
         texts: list[bytes] = []
         seen = set()
@@ -122,10 +130,10 @@ def run(prop: str, tier: str) -> int:
         for t in texts:
             low = t.lower()
             for s in shipped:
-                cands = [k for k in s.args[1] if k.lower() in low]
+                cands = sorted({k for k in listed[s.args[0]] if k.lower() in low})
                 if not cands and not s(t):
                     continue
-                rec = call(s, t, kws_override=cands)
+                rec = call(s, t, cands, s.args[0])
                 rec["origin"] = "shipped"
                 f.write(json.dumps(rec) + "\n")
                 n += 1
